@@ -15,6 +15,10 @@ impl<'a> Node<'a> {
     pub fn value(&self) -> (r: &Syntax) ensures *r == self@.kind { unimplemented!() }
     #[verifier::external_body]
     pub fn span(&self) -> (r: &Span<u32>) ensures *r == self@.span { unimplemented!() }
+    /// the first child (node or token) of this node
+    pub uninterp spec fn first_spec(&self) -> Option<Node<'a>>;
+    #[verifier::external_body]
+    pub fn first(&self) -> (r: Option<Node<'a>>) ensures r == self.first_spec() { unimplemented!() }
 }
 impl<'a> Clone for Node<'a> { #[verifier::external_body] fn clone(&self) -> (r: Self) ensures r@ == self@ { unimplemented!() } }
 impl<'a> Copy for Node<'a> {}
